@@ -65,6 +65,24 @@ reg(part('memchr_top', 'src/memchr.rs', 'memchr', cfg='x86_64',
          # ingestible by Verus; X7 turned the trait impls into inherent ones): not extracted
          drop_items=['fn memrchr_iter', 'fn memrchr2_iter', 'fn memrchr3_iter', 'use core::iter::Rev']))
 reg(part('x86_64_memchr', 'src/arch/x86_64/memchr.rs', 'arch::x86_64::memchr'))
+# ---- aarch64 / wasm32 (text the host never compiles): intrinsics paths are redirected to the trusted ISA prelude
+ISA = [[['core', '::', 'arch', '::', 'aarch64'], 'crate::isa::aarch64', 'X13'], [['core', '::', 'arch', '::', 'wasm32'], 'crate::isa::wasm32', 'X13']]
+AARCH64 = dict(target_arch='aarch64', target_feature=['neon'], feature=['alloc'], target_endian='little', target_pointer_width='64')
+WASM32 = dict(target_arch='wasm32', target_feature=['simd128'], feature=['alloc'], target_endian='little', target_pointer_width='64')
+reg(part('vector_neon', 'src/vector.rs', 'vector', only_items=['mod aarch64neon'], rewrites=ISA))
+reg(part('vector_wasm', 'src/vector.rs', 'vector', only_items=['mod wasm_simd128'], rewrites=ISA, deref_idents=['data']))
+reg(part('neon_memchr', 'src/arch/aarch64/neon/memchr.rs', 'arch::aarch64::neon::memchr', rewrites=ISA))
+reg(part('simd128_memchr', 'src/arch/wasm32/simd128/memchr.rs', 'arch::wasm32::simd128::memchr', rewrites=ISA))
+reg(part('neon_packedpair', 'src/arch/aarch64/neon/packedpair.rs', 'arch::aarch64::neon::packedpair', rewrites=ISA))
+reg(part('simd128_packedpair', 'src/arch/wasm32/simd128/packedpair.rs', 'arch::wasm32::simd128::packedpair', rewrites=ISA))
+reg(part('aarch64_memchr', 'src/arch/aarch64/memchr.rs', 'arch::aarch64::memchr', cfg='aarch64', simple_macros=['defraw']))
+reg(part('wasm32_memchr', 'src/arch/wasm32/memchr.rs', 'arch::wasm32::memchr', cfg='wasm32', simple_macros=['defraw']))
+reg(part('memchr_top_aarch64', 'src/memchr.rs', 'memchr', cfg='aarch64',
+         drop_items=['fn memrchr_iter', 'fn memrchr2_iter', 'fn memrchr3_iter', 'use core::iter::Rev']))
+reg(part('memchr_top_wasm32', 'src/memchr.rs', 'memchr', cfg='wasm32',
+         drop_items=['fn memrchr_iter', 'fn memrchr2_iter', 'fn memrchr3_iter', 'use core::iter::Rev']))
+reg(part('memchr_top_other', 'src/memchr.rs', 'memchr', cfg='other',
+         drop_items=['fn memrchr_iter', 'fn memrchr2_iter', 'fn memrchr3_iter', 'use core::iter::Rev']))
 reg(part('memmem_mod', 'src/memmem/mod.rs', 'memmem', keep_derives=['Clone', 'Copy', 'Default']))
 reg(part('memmem_searcher', 'src/memmem/searcher.rs', 'memmem::searcher',
          only_items=['struct SearcherRev', 'enum SearcherRevKind', 'impl SearcherRev', 'enum PrefilterConfig',
@@ -121,6 +139,16 @@ BUILDS = {
                             'generic_packedpair', 'sse2_packedpair', 'avx2_packedpair', 'memmem_reexport', 'memmem_pre_full',
                             'memmem_glue', 'all_twoway'],
                      prelude=P0 + ['prelude/x_eqrk.vrs', 'prelude/x_pp.vrs', 'prelude/x_tw.vrs', 'prelude/x_glue.vrs']),
+    # other targets (text the x86_64 host never compiles)
+    'aarch64': dict(parts=['ext', 'vector', 'vector_neon', 'generic_memchr', 'all_memchr', 'neon_memchr', 'aarch64_memchr',
+                           'memchr_top_aarch64', 'root_reexport', 'all_mod', 'all_packedpair', 'all_default_rank',
+                           'generic_packedpair', 'neon_packedpair'],
+                    prelude=P0 + ['prelude/isa.vrs', 'prelude/x_eqrk.vrs', 'prelude/x_pp.vrs']),
+    'wasm32': dict(parts=['ext', 'vector', 'vector_wasm', 'generic_memchr', 'all_memchr', 'simd128_memchr', 'wasm32_memchr',
+                          'memchr_top_wasm32', 'root_reexport', 'all_mod', 'all_packedpair', 'all_default_rank',
+                          'generic_packedpair', 'simd128_packedpair'],
+                   prelude=P0 + ['prelude/isa.vrs', 'prelude/x_eqrk.vrs', 'prelude/x_pp.vrs']),
+    'other': dict(parts=['ext', 'vector', 'generic_memchr', 'all_memchr', 'memchr_top_other', 'root_reexport'], prelude=P0),
     # S variant (release semantics, type invariants only): decides C05 for the packed-pair finders
     'safe': dict(parts=['ext', 'stub_root', 's_vector', 's_all_mod', 's_all_packedpair', 'all_default_rank',
                         's_generic_packedpair', 's_sse2_packedpair', 's_avx2_packedpair'],
@@ -147,4 +175,4 @@ BUILDS = {
                        prelude=P0 + ['prelude/x_memmem.vrs']),
 }
 
-CONFIGS_EXTRA = {'union': UNION}
+CONFIGS_EXTRA = {'union': UNION, 'aarch64': AARCH64, 'wasm32': WASM32}
